@@ -26,7 +26,8 @@ def make_policy(rng, kind, fair_after=400):
     p = dsched.PCTPolicy(rng, depth=rng.choice([2, 3, 4]), k=rng.choice([40, 80, 150]))
   else:
     raise ValueError(kind)
-  return dsched.FairSuffix(p, fair_after)
+  # the fair suffix: plain round robin, or a weighted one (a thread may run several steps in a row)
+  return dsched.FairSuffix(p, fair_after, rr=dsched.WeightedRR(rng) if rng.random() < 0.5 else None)
 
 
 def _work(args):
